@@ -62,17 +62,21 @@ vars == <<cs, i, resps, closed>>
 Init == /\ cs \in UNION {[1..n -> Classes] : n \in 1..MaxReqs}
         /\ i = 1 /\ resps = <<>> /\ closed = FALSE
 
-StatusM(c) == CASE Normal(c) -> 200 [] c \in {"early", "earlybig", "expectearly"} -> 403
-                [] c = "expect0" -> 400 [] c = "expectbad" -> 417 [] c = "bad" -> 400 [] OTHER -> 413
+\* Early backend answers race with the proxy still writing the body: the client gets the backend's
+\* 403 or, when the reset is noticed first, the proxy's own 500; the interim 100 may or may not be out.
+EarlyC(c) == c \in {"early", "earlybig", "expectearly"}
+StatusM(c) == CASE Normal(c) -> {200} [] EarlyC(c) -> {403, 500}
+                [] c = "expect0" -> {400} [] c = "expectbad" -> {417} [] c = "bad" -> {400} [] OTHER -> {413}
+InterimM(c) == IF c = "expect" THEN {1} ELSE IF c = "expectearly" THEN {0, 1} ELSE {0}
 \* does the loop go on to read the next request ?
 \* (earlybig: whether more than 256 KiB of the body are still unread when the response is written
 \*  depends on how far the transport got: both outcomes occur)
-ContinueM(c) == IF c = "earlybig" THEN BOOLEAN
-                ELSE {c \in {"get", "head", "post", "chunked", "expect", "early", "expectearly"}}
+ContinueM(c) == IF EarlyC(c) THEN BOOLEAN
+                ELSE {c \in {"get", "head", "post", "chunked", "expect"}}
 
 Serve == /\ ~closed /\ i <= Len(cs)
-         /\ resps' = Append(resps, [st |-> StatusM(cs[i]), id |-> IF StatusM(cs[i]) \in {200, 403} THEN i ELSE 0,
-                                    interim |-> IF cs[i] \in {"expect", "expectearly"} THEN 1 ELSE 0])
+         /\ \E st \in StatusM(cs[i]), im \in InterimM(cs[i]) :
+              resps' = Append(resps, [st |-> st, id |-> IF st \in {200, 403} THEN i ELSE 0, interim |-> im])
          /\ i' = i + 1
          /\ \E cont \in ContinueM(cs[i]) : closed' = ~cont
          /\ UNCHANGED cs
